@@ -1,6 +1,6 @@
 """C17 - out of memory is reported, not corrupting: allocation discipline."""
 from .. import engine
-from ..rules import alloc, clearfill
+from ..rules import alloc, clearfill, splitcommit
 
 
 def tu_check(tu):
@@ -8,12 +8,15 @@ def tu_check(tu):
     cf = clearfill.analyse_tu(tu, mode="alloc")
     r["findings"] = r["findings"] + cf["findings"]
     r["stats"]["clear_sites"] = cf["stats"]["clear_sites"]
+    sc = splitcommit.analyse_tu(tu)
+    r["findings"] = r["findings"] + sc["findings"]
+    r["stats"]["split_sites"] = sc["stats"]["split_call_sites"] + sc["stats"]["split_commit_stores"]
     return r
 
 
 def run(tier="quick", seed=0, use_cache=True):
     res = engine.Result("C17")
-    res.rules = ["ALLOC-CHECKED", "REALLOC-DISC", "FREE-DISC", "SIZE-BEFORE-ALLOC", "RAW-ALLOC", "EXC-PENDING", "CLEAR-THEN-FILL"]
+    res.rules = ["ALLOC-CHECKED", "REALLOC-DISC", "FREE-DISC", "SIZE-BEFORE-ALLOC", "RAW-ALLOC", "EXC-PENDING", "CLEAR-THEN-FILL", "SPLIT-COMMIT"]
     res.explanation = (
         "Path-sensitive dataflow over the clang CFG of every function of the "
         "22 translation units that allocates or frees: the result of every "
@@ -29,7 +32,8 @@ def run(tier="quick", seed=0, use_cache=True):
         "wrapper call and returns success with the MemoryError still pending "
         "(EXC-PENDING); no operation empties its own container and then "
         "rebuilds it through calls that allocate (CLEAR-THEN-FILL; state "
-        "loaders excluded). Every failure exit is covered, "
+        "loaders excluded); after a node split succeeded nothing can fail "
+        "before the new sibling is stored as a child (SPLIT-COMMIT). Every failure exit is covered, "
         "whether or not a test can reach it.")
     res.assumptions = [
         "module initialisation and repr are outside 'inside an operation' and not analysed",
@@ -55,6 +59,8 @@ def run(tier="quick", seed=0, use_cache=True):
     res.count("RAW-ALLOC", tot["raw_sites"])
     res.floor("calls that empty the function's own container", tot["clear_sites"], 5 * 22)
     res.count("CLEAR-THEN-FILL", tot["clear_sites"])
+    res.floor("split call sites and commit stores", tot["split_sites"], 5 * 22)
+    res.count("SPLIT-COMMIT", tot["split_sites"])
     res.samples = [
         {"rule": "REALLOC-DISC", "obligation": "keys = BTree_Realloc(self->keys, ...) in Bucket_grow: self->keys = keys before every return"},
         {"rule": "ALLOC-CHECKED", "obligation": "next->data = BTree_Malloc(...) in BTree_split is tested before memcpy(next->data, ...)"},
